@@ -275,6 +275,7 @@ class Parser:
 
         self.filename = filename
         self.py_version = min(py_version, sys.version_info) if py_version else sys.version_info
+        self._version_errors: list[tuple[tuple[int, ...], str]] = []  # version-gated constructs met while parsing
 
     def showpeek(self) -> str:
         tok = self._tokenizer.peek()
@@ -400,6 +401,8 @@ class Parser:
 
             self.raise_raw_syntax_error("invalid syntax", last_token.start, last_token.end)
 
+        if isinstance(res, ast.AST) and self._version_errors:
+            self._raise_version_error(res)
         if isinstance(res, ast.AST) and any(not t.string.isascii() for t in self._tokenizer._tokens if t.type == Token.NAME):
             self._normalize_identifiers(res)
         if isinstance(res, ast.AST) and any(not t.line.isascii() for t in self._tokenizer._tokens):
@@ -435,11 +438,33 @@ class Parser:
                     setattr(node, field, [unicodedata.normalize("NFKC", v) if isinstance(v, str) else v for v in value])
 
     def check_version(self, min_version: tuple[int, ...], error_msg: str, node: T) -> T:
-        """Check that the python version is high enough for a rule to apply."""
-        if self.py_version >= min_version:
-            return node
-        else:
-            raise self.make_syntax_error(f"{error_msg} is only supported in Python {min_version} and above.")
+        """Note that a rule needs a higher python version than the one asked for.
+
+        Actions run while the parse is still speculative, so nothing is raised here: the statement around the
+        construct may turn out to be malformed (and then gets its ordinary diagnosis), or the alternative may be
+        abandoned. `parse` raises the version error once the whole input has been accepted."""
+        if self.py_version < min_version:
+            self._version_errors.append((min_version, f"{error_msg} is only supported in Python {min_version} and above."))
+        return node
+
+    def _raise_version_error(self, tree: ast.AST) -> None:
+        """The input parsed: report the first version-gated construct of the tree that the asked-for version lacks."""
+        gated: list[tuple[int, int, tuple[int, ...], ast.AST]] = []
+        for node in ast.walk(tree):
+            need: tuple[int, ...] | None = None
+            where: ast.AST = node
+            if type(node).__name__ == "TryStar":
+                need = (3, 11)
+            elif type(node).__name__ == "TypeAlias":
+                need = (3, 12)
+            elif getattr(node, "type_params", None):
+                need, where = (3, 12), node.type_params[0]  # type: ignore[attr-defined]
+            if need is not None and self.py_version < need:
+                gated.append((getattr(where, "lineno", 0), getattr(where, "col_offset", 0), need, where))
+        if gated:
+            _, _, need, where = min(gated, key=lambda g: g[:2])
+            message = next((m for v, m in self._version_errors if v == need), self._version_errors[0][1])
+            self.raise_syntax_error_known_location(message, where)
 
     def raise_indentation_error(self, msg: str) -> None:
         """Raise an indentation error."""
